@@ -28,7 +28,7 @@ NEEDS_THOROUGH = ["fast"]
 
 
 def EXPECTED_KNOWN(tier):
-    return ["F4a", "F4b", "F4c", "F4d", "F4e", "F16", "F21"]
+    return ["F4a", "F4b", "F4c", "F4d", "F4e", "F16", "F21", "F38"]
 
 
 def shards(tier, seed):
@@ -53,6 +53,10 @@ def signature(panic):
 
 
 def classify_panic(sh, known, case, panic, where):
+    if "allocate memory" in (panic.get("msg") or "") and resource_bomb(case.get("code", "")):
+        # an input asking for gigabytes (`"{1:>9999999999}"`) under the worker's address-space limit
+        sh.count("allocation_failures_of_resource_demanding_inputs_not_judged")
+        return
     sig = signature(panic)
     sh.count_in("panic_signatures", sig)
     for fid, e in known.items():
@@ -146,7 +150,7 @@ def run_inputs(sh, w, known, codes, base="p", libcall=None):
 
 
 def crash(sh, known, case, rc):
-    if case.get("libcall") == "count_driven" and re.search(r"inf|e308|e30\b|2\^53|1000", case["code"]):
+    if case.get("libcall") == "count_driven" and BIG_NUM.search(case["code"]):
         sh.count("crashes_of_count_driven_library_calls_with_huge_counts_not_judged")
         return
     if user_recursion(case["code"]) and not case.get("template"):
@@ -182,7 +186,7 @@ def user_recursion(code):
 
 BOMB_FN = re.compile(r"\b(range|linspace|str_rep|str_repeat|lpad|rpad|replicate|random_sample|foldl|map|sum|fibonacci|lucas|catalan|"
                      r"binom|factorial|falling_factorial|rand_binom|rand_poisson|rand_geom|take|drop|element_at)\s*\(")
-BIG_NUM = re.compile(r"\d{5,}|\de\+?[4-9]\b|\de\+?\d{2,}|\binf\b|\^\s*\d{2,}")
+BIG_NUM = re.compile(r"\d{4,}|\de\+?[4-9]\b|\de\+?\d{2,}|\binf\b|\^\s*\d{2,}")
 
 
 def resource_bomb(code):
@@ -193,7 +197,7 @@ def resource_bomb(code):
 
 
 def hang(sh, known, case):
-    if case.get("libcall") == "count_driven" and re.search(r"inf|e308|e30\b|2\^53|1000", case["code"]):
+    if case.get("libcall") == "count_driven" and BIG_NUM.search(case["code"]):
         # `range(0, inf)`, `fibonacci(1e308)`, `str_repeat(2^53, "a")`: the caller asks for an unbounded amount of work
         sh.count("timeouts_of_count_driven_library_calls_with_huge_counts_not_judged")
         return
@@ -212,10 +216,12 @@ def hang(sh, known, case):
 
 # ---- stratum 4: every library function called with hostile arguments ---------------------------------------
 
-NUMS = ["0", "-0", "1", "-1", "2", "3", "10", "0.5", "-2.5", "1000", "inf", "-inf", "NaN", "1e308", "-1e308", "5e-324", "2^53",
+NUMS = ["0", "-0", "1", "-1", "2", "3", "10", "0.5", "-2.5", "1000", "20000", "250000", "1e7", "-1e7", "1e12", "inf", "-inf", "NaN", "1e308", "-1e308", "5e-324", "2^53",
         "1e30", "1e-30", "-7", "255", "1/3"]
-DIM_UNITS = {"Length": "m", "Time": "s", "Mass": "kg", "Temperature": "K", "Angle": "rad", "Velocity": "m/s", "Money": "$",
-             "Frequency": "Hz", "Energy": "J", "Area": "m^2", "Volume": "L", "UnixTime": "unix_s", "Current": "A"}
+DIM_UNITS = {"Length": ["m", "km", "ly", "angstrom", "inch", "mm"], "Time": ["s", "ms", "min", "hours", "days", "months", "years", "centuries"],
+             "Mass": ["kg", "g", "lb", "tonne"], "Temperature": ["K", "mK"], "Angle": ["rad", "deg", "turn"], "Velocity": ["m/s", "km/h"],
+             "Money": ["$", "€"], "Frequency": ["Hz", "GHz"], "Energy": ["J", "eV", "kWh"], "Area": ["m^2", "hectare"], "Volume": ["L", "m^3"],
+             "UnixTime": ["unix_s", "unix_ms"], "Current": ["A", "mA"]}
 STRS = ['""', '"a"', '"abc"', '"ä€x"', '"a,b,,c"', '"  "', '"{{}}"', '"0"', '"-1e400"', '"2024-02-30"', '"%"', '"UTC"',
         '"Europe/Berlin"', '"%Y-%m-%d %H:%M:%S"', '"%Q%"', '"H"', '"1 m"', '"' + "x" * 300 + '"', '"\\n\\t"', '"Ωµ"']
 DATES = ["now()", 'datetime("0001-01-02 00:00:00 UTC")', 'datetime("9999-12-30 00:00:00 UTC")', 'datetime("1970-01-01T00:00:00Z")',
@@ -280,8 +286,9 @@ def hostile_value(rng, ty, depth=0):
     if ty == "DateTime":
         return rng.choice(DATES)
     x = rng.choice(NUMS)
-    for d, u in DIM_UNITS.items():
+    for d, us in DIM_UNITS.items():
         if d in ty:
+            u = rng.choice(us)
             return f"({x}) {u}" if "/" in x or "^" in x else f"{x} {u}"
     if ty != "Scalar" and rng.random() < 0.4:
         return f"({x}) m" if "/" in x or "^" in x else f"{x} m"      # generic dimension parameter
